@@ -44,6 +44,15 @@ pub fn fnv(s: &str) -> u64 {
     h
 }
 
+pub fn fnv_bytes(s: &[u8]) -> u64 {
+    let mut h = 0xcbf29ce484222325u64;
+    for b in s {
+        h ^= *b as u64;
+        h = h.wrapping_mul(0x100000001b3);
+    }
+    h
+}
+
 /// Seed of run `i` of a batch: a pure function of (VERIF_SEED, property, i).
 pub fn run_seed(base: u64, property: &str, i: u64) -> u64 {
     let mut x = base ^ fnv(property).rotate_left(17) ^ i.wrapping_mul(0xD1342543DE82EF95);
@@ -586,6 +595,10 @@ pub struct ReplayFile {
     pub log: Vec<String>,
     pub minimised_from: usize,
     pub minimise_attempts: u64,
+    /// the run killed its process (abort, segmentation fault, hang caught by the watchdog): it cannot be
+    /// minimised from inside; the replay regenerates it from the seed and is expected to die the same way
+    #[serde(default)]
+    pub from_seed: bool,
 }
 
 #[derive(Default)]
